@@ -340,6 +340,35 @@ Definition run_lines (k : opk) (ins : text) (t : text) (count : nat) (i : nat) :
   if Nat.ltb 1 count && last_line_at t i then mkO t i None
   else apply_op k ins (mkO t i None) (RLines i (nth_line_end t i (count - 1)) true).
 
+(** ** operators over the line motions j k G gg: the whole lines between the cursor's line and the target's *)
+Inductive vmotion := VDown | VUp | VGoto | VFirst.
+
+(** the start of the [k]-th line above the line of [p], the first line when there are fewer *)
+Fixpoint up_lines (t : text) (p : nat) (k : nat) : nat :=
+  match k with
+  | O => line_start_from t p
+  | S j => let s := line_start_from t p in if Nat.eqb s 0 then 0%nat else up_lines t (s - 1) j
+  end.
+(** the start of line number [n] (from 0), of the last line when there are fewer *)
+Definition line_no_start (t : text) (n : nat) : nat := line_start_from t (nth_line_end t 0 n).
+(** column [col] of the line starting at [a], as far as a normal-mode cursor goes *)
+Definition at_col (t : text) (a col : nat) : nat := Nat.min (a + col) (Nat.max a (line_end t a - 1)).
+
+Definition v_range (t : text) (m : vmotion) (count : option nat) (i : nat) : orange :=
+  let n := match count with Some c => Nat.max c 1 | None => 1%nat end in
+  let s := line_start_from t i in
+  let col := (i - s)%nat in
+  let between (a : nat) := if Nat.leb a s then RLines (at_col t a col) i true else RLines i a true in
+  match m with
+  | VDown => if last_line_at t i then RFail i else RLines i (nth_line_end t i n) true
+  | VUp => if Nat.eqb s 0 then RFail i else RLines (at_col t (up_lines t i n) col) i true
+  | VGoto => between (match count with Some c => line_no_start t (Nat.max c 1 - 1) | None => line_start_from t (length t) end)
+  | VFirst => between (match count with Some c => line_no_start t (Nat.max c 1 - 1) | None => 0%nat end)
+  end.
+
+Definition run_op_v (k : opk) (ins : text) (t : text) (m : vmotion) (count : option nat) (i : nat) : ostate :=
+  apply_op k ins (mkO t i None) (v_range t m count i).
+
 (** [P] of a register at the cursor (characterwise: before the cursor; linewise: above the cursor's line) *)
 Definition put_before (s : ostate) : text :=
   match o_reg s with
